@@ -157,6 +157,19 @@ func (n *Node) write(b *strings.Builder) {
 	}
 }
 
+// clone returns a deep copy of the tree.
+func (n *Node) clone() *Node {
+	c := *n
+	c.Keys = append([]string(nil), n.Keys...)
+	c.Members = make([]*Node, len(n.Members))
+
+	for i, m := range n.Members {
+		c.Members[i] = m.clone()
+	}
+
+	return &c
+}
+
 // Get returns the first member with the key.
 func (n *Node) Get(key string) *Node {
 	if n == nil || n.Kind != "object" {
@@ -248,7 +261,7 @@ func Mutate(t *rapid.T, root *Node, typeNames []string) []string {
 
 		s := sl[rapid.IntRange(0, len(sl)-1).Draw(t, "slot")]
 		cur := s.parent.Members[s.index]
-		kind := rapid.SampledFrom([]string{"replace-kind", "replace-kind", "replace-kind", "delete", "duplicate-key", "unknown-type", "unknown-field", "null-element", "deep-nest", "swap-type", "edit-string", "edit-string", "link-object"}).Draw(t, "mutation")
+		kind := rapid.SampledFrom([]string{"replace-kind", "replace-kind", "replace-kind", "delete", "duplicate-key", "unknown-type", "unknown-field", "null-element", "deep-nest", "swap-type", "edit-string", "edit-string", "link-object", "repeat-elements"}).Draw(t, "mutation")
 
 		switch kind {
 		case "replace-kind":
@@ -333,6 +346,26 @@ func Mutate(t *rapid.T, root *Node, typeNames []string) []string {
 			}
 
 			s.parent.Members[s.index] = &Node{Kind: "string", Str: v}
+		case "repeat-elements":
+			// Elements of a list given twice, next to each other (the same
+			// resource object twice among the included, the same identifier
+			// twice in a linkage): one, or each of them.
+			if cur.Kind != "array" || len(cur.Members) == 0 {
+				continue
+			}
+
+			all := rapid.Bool().Draw(t, "repeat-all")
+			which := rapid.IntRange(0, len(cur.Members)-1).Draw(t, "repeat-which")
+			out := []*Node{}
+
+			for k, m := range cur.Members {
+				out = append(out, m)
+				if all || k == which {
+					out = append(out, m.clone())
+				}
+			}
+
+			cur.Members = out
 		case "link-object":
 			// A links member whose links are written in their object form
 			// (href and meta), the meta being of any JSON kind.
